@@ -32,7 +32,11 @@
 // expression of the call that is active in it, parentheses not included
 // ("abc (<anonymous>:6:17)" for def(); "<anonymous>:2:14" for ({}).abc()); for
 // `new F()` it is the start of F, not of `new` ("<anonymous>:2:23" for throw
-// new Error). The position of the innermost frame is the error site:
+// new Error). Calls, `new` expressions and accessor reads evaluated inside the
+// argument list of that call do not move it: the frame reports the callee of
+// the call that is active, not of the call evaluated last (generated as
+// argument-list variants of every call site, see argVariants).
+// The position of the innermost frame is the error site:
 //
 //   - call / new of a non-function: start of the callee expression (pinned);
 //   - property read or write on undefined / null: start of the member
@@ -75,7 +79,7 @@ func init() {
 	engine.Register(&engine.Check{
 		ID:    "C19",
 		Title: "Errors surface with the right class, message and source position",
-		Rule: "full products: error construct x nesting shapes (stacks of 0..4) x layout (separator, preceding material, line terminator) x entry (Run(string), Compile(\"\"), Compile(\"t.js\")) x trace limit; " +
+		Rule: "full products: error construct x nesting shapes (stacks of 0..4) x layout (separator, preceding material, line terminator) x argument list of every call site (none, nested call, call on a later line, several calls, new, getter, method call) x entry (Run(string), Compile(\"\"), Compile(\"t.js\")) x trace limit; " +
 			"every case runs the generated program on a fresh runtime and compares class, Error() text and every frame of Error.String() with the generator's own positions; " +
 			"a case is non-trivial when at least one frame position is asserted away from 1:1 or more than one frame is expected",
 		Families: []engine.Family{
@@ -182,6 +186,7 @@ type tcase struct {
 	limit  int
 	wrap   int
 	files  bool // every level is a declaration in a file of its own (family files)
+	args   int  // argument-list variant of the call sites (argVariants)
 }
 
 func (c tcase) key() string {
@@ -192,11 +197,14 @@ func (c tcase) key() string {
 	if c.files {
 		k += "/files"
 	}
+	if c.args != 0 {
+		k += "/args-" + argVariants[c.args]
+	}
 	return k
 }
 
 func (c tcase) gen() *gen {
-	return &gen{shapes: c.shapes, k: constructs[c.ki], lay: c.lay, fname: modeFile(c.mode), wrap: c.wrap}
+	return &gen{shapes: c.shapes, k: constructs[c.ki], lay: c.lay, fname: modeFile(c.mode), wrap: c.wrap, args: c.args}
 }
 
 func aux(g *gen, c tcase) map[string]string {
@@ -442,6 +450,59 @@ func runSingle(r *engine.Run) {
 			}
 		}
 	}
+	runSingleArgs(r)
+}
+
+// argLayouts: layouts of the argument-list cases (all with line structure, so
+// that a call on a later line of the argument list also changes the line).
+func argLayouts(thorough bool) []layout {
+	l := []layout{{sepLine: true, pre: preNone, term: 0}, {sepLine: true, pre: preSpaces, term: 2}, {sepLine: true, pre: preCall, term: 0}}
+	if thorough {
+		l = append(l, layout{sepLine: true, pre: preTab, term: 1}, layout{sepLine: true, pre: preBr2, term: 3}, layout{sepLine: true, pre: preEval1, term: 4})
+	}
+	return l
+}
+
+func allTakeArgs(l []shape) bool {
+	for _, s := range l {
+		if !takesArgs(s) {
+			return false
+		}
+	}
+	return len(l) > 0
+}
+
+// runSingleArgs: every call site carries an argument list in which further calls
+// are evaluated; the caller's frame must still report the callee of the outer call.
+func runSingleArgs(r *engine.Run) {
+	ks := ids("call-undef", "unresolvable", "write-dot-null", "throw-new-TypeError", "toFixed-21", "instanceof-number", "toFixed-argcall", "throw-new-argcall")
+	if r.Thorough() {
+		ks = traceConstructs()
+	}
+	lays := argLayouts(r.Thorough())
+	r.Bound("args.constructs", fmt.Sprint(len(ks)))
+	r.Bound("args.variants", fmt.Sprint(nArgVariants-1))
+	r.Bound("args.layouts", fmt.Sprint(len(lays)))
+	for _, ki := range ks {
+		for _, sh := range shapeLists1() {
+			if !allTakeArgs(sh) {
+				continue
+			}
+			for a := 1; a < nArgVariants; a++ {
+				for li, lay := range lays {
+					m := modeCompileNamed
+					if li == 0 && a <= 2 {
+						m = modeRun
+					}
+					runTrace(r, tcase{shapes: sh, ki: ki, lay: lay, mode: m, limit: 10, args: a})
+				}
+			}
+		}
+		if r.Expired() {
+			r.Cap("time budget")
+			return
+		}
+	}
 }
 
 func runStack2(r *engine.Run) {
@@ -455,6 +516,37 @@ func runStack2(r *engine.Run) {
 			for _, ki := range ks {
 				for _, lay := range lays {
 					runTrace(r, tcase{shapes: []shape{a, b}, ki: ki, lay: lay, mode: modeCompileNamed, limit: 10})
+				}
+			}
+		}
+		if r.Expired() {
+			r.Cap("time budget")
+			return
+		}
+	}
+	// argument-list variants on both call sites
+	aks := ids("unresolvable", "toFixed-argcall")
+	alays := argLayouts(r.Thorough())
+	if !r.Thorough() {
+		alays = alays[:2]
+	}
+	r.Bound("args.constructs", fmt.Sprint(len(aks)))
+	r.Bound("args.variants", fmt.Sprint(nArgVariants-1))
+	r.Bound("args.layouts", fmt.Sprint(len(alays)))
+	for a := shape(0); a < nShapes; a++ {
+		for b := shape(0); b < nShapes; b++ {
+			// at least one of the two call sites must have an argument list
+			if !takesArgs(a) && !takesArgs(b) {
+				continue
+			}
+			if !r.Thorough() && !(takesArgs(a) && takesArgs(b)) {
+				continue
+			}
+			for v := 1; v < nArgVariants; v++ {
+				for _, ki := range aks {
+					for _, lay := range alays {
+						runTrace(r, tcase{shapes: []shape{a, b}, ki: ki, lay: lay, mode: modeCompileNamed, limit: 10, args: v})
+					}
 				}
 			}
 		}
@@ -496,6 +588,38 @@ func runStack3(r *engine.Run) {
 				r.Cap("time budget")
 				return
 			}
+		}
+	}
+	// argument-list variants on all three call sites
+	aalpha := []shape{shDecl, shMethodDot, shCtor, shBound, shFunction, shIIFE}
+	variants := []int{argCall, argCallNextLine, argCalls}
+	if r.Thorough() {
+		aalpha = nil
+		for s := shape(0); s < nShapes; s++ {
+			if takesArgs(s) {
+				aalpha = append(aalpha, s)
+			}
+		}
+		variants = nil
+		for v := 1; v < nArgVariants; v++ {
+			variants = append(variants, v)
+		}
+	}
+	alay := argLayouts(false)[1]
+	aki := constructIndex("unresolvable")
+	r.Bound("args.shape_triples", fmt.Sprint(len(aalpha)*len(aalpha)*len(aalpha)))
+	r.Bound("args.variants", fmt.Sprint(len(variants)))
+	for _, a := range aalpha {
+		for _, b := range aalpha {
+			for _, c := range aalpha {
+				for _, v := range variants {
+					runTrace(r, tcase{shapes: []shape{a, b, c}, ki: aki, lay: alay, mode: modeCompileNamed, limit: 10, args: v})
+				}
+			}
+		}
+		if r.Expired() {
+			r.Cap("time budget")
+			return
 		}
 	}
 }
@@ -573,6 +697,11 @@ func runFiles(r *engine.Run) {
 			for _, lay := range lays {
 				for _, m := range []int{modeCompileNamed, modeRun} {
 					runTrace(r, tcase{shapes: shapes, ki: ki, lay: lay, mode: m, limit: 10, files: true})
+				}
+			}
+			for v := 1; v < nArgVariants; v++ {
+				for _, lay := range argLayouts(r.Thorough()) {
+					runTrace(r, tcase{shapes: shapes, ki: ki, lay: lay, mode: modeCompileNamed, limit: 10, files: true, args: v})
 				}
 			}
 		}
